@@ -4,9 +4,9 @@ from props.common import *  # noqa: F401,F403
 
 from contracts import inputs  # noqa: E402
 
-FUNCTIONS = [f"{M}:run_manager_from_cli"] + cli.STATUS + ["ghedesigner.validate:validate_input_file#body"] + inputs.NAME_SETTERS + [inputs.WORKER[-1], inputs.WORKER[0]]
+FUNCTIONS = [f"{M}:run_manager_from_cli"] + cli.STATUS + ["ghedesigner.validate:validate_input_file#body"] + inputs.NAME_SETTERS + [inputs.WORKER[-1], inputs.WORKER[0]] + cli.OUTPUT_METHODS
 NATIVE_FUNCTIONS = [f"{M}:run_manager_from_cli"]
-NATIVE_CASES = {"quick": 14, "thorough": 400}
+NATIVE_CASES = {"quick": 18, "thorough": 400}
 NATIVE_LIMIT_S = {"quick": 120, "thorough": 3000}
 CASE_TIMEOUT = 300
 LEVEL = "other"
@@ -17,10 +17,13 @@ ASSUMPTIONS = [A_ENGINE,
                "status 1 before loading; returns 0 only after write_output_files) for the file shapes listed under C17"]
 NOT_PROVED = ["the eight section validators (schema semantics; upper-casing of fluid / flow-type / time-step names inside them): bounded run-time contract through the real entry point; "
               "case-insensitivity of the pipe-arrangement and design-method names in the loader is proved (set_pipe_type / set_design_geometry_type in three spellings each)",
-              "'exits zero only when the output files were written' for full runs: checked by the bounded runs (files inspected)"]
+              "'exits zero only when the output files were written' for full runs: the worker returns 0 only after prepare_results and write_output_files returned normally (verified body), and each of "
+              "them returns normally only with a design / with results (verified bodies; OutputManager(None, ...) raising AttributeError is Python semantics, assumed); that write_all_output_files "
+              "writes every file when it returns normally is checked by the bounded runs (files inspected), as are inputs that pass the schemas but cannot be designed for (no load list, empty list)"]
 EXPLANATION = ("The status logic is proved for all flag combinations (6 variants: --convert absent/IDF/other x output directory absent/given, validate-only symbolic): exit status 0 only if "
                "(validate-only and zero validation errors) or (IDF conversion) or (a run whose worker returned 0); validation errors give non-zero; unsupported --convert gives 1; missing "
                "output directory gives 1; the click callback always leaves through exit(status). validate_input_file returns 0 exactly when all nine section verdicts are 0. "
+               "GHEManager.prepare_results / write_output_files return normally only with a design / with results to write (so a run whose search produced nothing cannot reach 'return 0'). "
                "On the pinned tree the callback returned its status to click, which discards it (defects D1, D2, fixed): the bounded runs reproduce exit 0 on invalid input there.")
 LEVEL_TEXT = ("Proof of the exit-status logic and of the aggregation of the section verdicts; the schema semantics, case-insensitivity and the worker are covered by bounded runs of the real "
               "command line over single-field corruptions - hence level 'other'.")
